@@ -15,6 +15,7 @@
 package gomatrixserverlib
 
 import (
+	"bytes"
 	"context"
 	"crypto/ed25519"
 	"fmt"
@@ -22,6 +23,7 @@ import (
 
 	"github.com/matrix-org/gomatrixserverlib/spec"
 	"github.com/sirupsen/logrus"
+	"github.com/tidwall/sjson"
 )
 
 type GetLatestEvents func(ctx context.Context, roomID spec.RoomID, eventsNeeded []StateKeyTuple) (LatestEvents, error)
@@ -257,9 +259,14 @@ func PerformInvite(ctx context.Context, input PerformInviteInput, fedClient Fede
 			return nil, spec.InternalServerError{}
 		}
 
-		inviteEvent = fullEvent.Sign(
-			string(input.Invitee.Domain()), input.KeyID, input.SigningKey,
-		)
+		inviteEvent = fullEvent
+		if input.IsTargetLocal {
+			// The invited user is ours: sign so that other servers will know that we have
+			// received the invite. A remote invitee's server adds its own signature.
+			inviteEvent = fullEvent.Sign(
+				string(input.Invitee.Domain()), input.KeyID, input.SigningKey,
+			)
+		}
 
 		err = checkEventAllowed(inviteEvent)
 		if err != nil {
@@ -268,16 +275,56 @@ func PerformInvite(ctx context.Context, input PerformInviteInput, fedClient Fede
 
 		if !input.IsTargetLocal {
 			eventID := inviteEvent.EventID()
-			inviteEvent, err = fedClient.SendInvite(ctx, inviteEvent, inviteState)
+			var respEvent PDU
+			respEvent, err = fedClient.SendInvite(ctx, inviteEvent, inviteState)
 			if err != nil {
 				logger.WithError(err).WithField("event_id", eventID).Error("fedClient.SendInvite failed")
 				return nil, spec.Forbidden(err.Error())
+			}
+			// The answer is the invite we sent with the invited server's signature added.
+			// Anything else is not ours to hand on; no event at all leaves us with what we sent.
+			if respEvent != nil {
+				if !isSameEventApartFromSignatures(inviteEvent, respEvent) {
+					logger.WithField("event_id", eventID).Error("fedClient.SendInvite returned another event than the invite sent")
+					return nil, spec.Forbidden("the invited server answered with another event than the invite")
+				}
+				if keyIDs, kerr := ListKeyIDs(string(input.Invitee.Domain()), respEvent.JSON()); kerr != nil || len(keyIDs) == 0 {
+					logger.WithField("event_id", eventID).Error("fedClient.SendInvite returned the invite without a signature of the invited server")
+					return nil, spec.Forbidden("the invited server did not sign the invite")
+				}
+				inviteEvent = respEvent
 			}
 			logger.Debugf("Federated SendInvite success with event ID %s", eventID)
 		}
 	}
 
 	return inviteEvent, nil
+}
+
+// isSameEventApartFromSignatures reports whether b is the event a with nothing but its
+// signatures and unsigned members changed.
+func isSameEventApartFromSignatures(a, b PDU) bool {
+	if a.Version() != b.Version() || a.EventID() != b.EventID() {
+		return false
+	}
+	strip := func(eventJSON []byte) ([]byte, error) {
+		var err error
+		for _, key := range []string{"signatures", "unsigned"} {
+			if eventJSON, err = sjson.DeleteBytes(eventJSON, key); err != nil {
+				return nil, err
+			}
+		}
+		return CanonicalJSON(eventJSON)
+	}
+	aJSON, err := strip(a.JSON())
+	if err != nil {
+		return false
+	}
+	bJSON, err := strip(b.JSON())
+	if err != nil {
+		return false
+	}
+	return bytes.Equal(aJSON, bJSON)
 }
 
 // truncateAuthAndPrevEvents limits the number of events we add into
